@@ -4,7 +4,7 @@ import ZipVerif.Lemmas.Dos
 import ZipVerif.Lemmas.Text
 /-
 The bridge between `new_append`'s re-hydrated records and the writer invariant (C13, C14):
-the record `viewEntry e off pre chs` that `new_append` holds for the entry `e` of an existing archive
+the record `appendRecord (viewEntry e off pre chs)` that `new_append` holds for the entry `e` of an existing archive
 is `WL.Closed` for the NORMALISED spec entry `appendNorm e off pre`, which records exactly what
 `write_central_directory_header` will emit for it when the appending writer finishes.
 -/
@@ -152,8 +152,9 @@ def appendNorm (e : Entry) (off pre : Nat) : Entry :=
     usize := e.usize
     -- the decoded name (CP437 names are transcoded to UTF-8, ill-formed UTF-8 is replaced)
     name := Text.decodeToUtf8 (e.flagsOut &&& 0x0800 != 0) e.name
-    -- the whole old extra field, old ZIP64 record included; the new ZIP64 record is put in front of it
-    centralExtra := e.centralExtraAll (UInt64.ofNat off)
+    -- the old extra field WITHOUT its ZIP64 records (`strip_zip64_extra_field`, D20): for a `Readable`
+    -- entry exactly the foreign records `e.centralExtra`; the new ZIP64 record is put in front of it
+    centralExtra := e.keptExtra (UInt64.ofNat off)
     comment := []
     internalAttrs := 0
     externalAttrs := e.externalAttrs
@@ -192,17 +193,18 @@ theorem appendNorm_flagsOut (e : Entry) (off pre chs : Nat) :
 
 theorem appendNorm_eq_specEntry (e : Entry) (off pre chs : Nat) :
     appendNorm e off pre =
-      { specEntry (viewEntry e off pre chs) e.date e.gapBefore e.localExtra e.data
+      { specEntry (appendRecord (viewEntry e off pre chs)) e.date e.gapBefore e.localExtra e.data
           (e.localVersion.getD e.versionNeeded) with
         localZip64 := e.localZip64, desc := e.desc, flags := centralFlagOf (viewEntry e off pre chs) } := by
-  unfold appendNorm specEntry
+  unfold appendNorm specEntry appendRecord
   simp only [viewEntry, method_roundtrip, (msdos_roundtrip e.date e.time).2]
   rfl
 
-/-- The only way the rewritten record can fail to serialise: the new ZIP64 record plus the old extra
-field (which still contains the old ZIP64 record) exceed the 16-bit length field. -/
+/-- The only way the rewritten record can fail to serialise: the new ZIP64 record plus the kept part of
+the old extra field exceed the 16-bit length field.  (Since D20 the old ZIP64 records are dropped first:
+for an entry that `Fits` and is `Readable` this always holds, `appendFits_of_fits_readable`.) -/
 def AppendFits (e : Entry) (off pre : Nat) : Prop :=
-  (centralZip64Bytes (viewEntry e off pre 0)).length + (e.centralExtraAll (UInt64.ofNat off)).length ≤ 65535
+  (centralZip64Bytes (viewEntry e off pre 0)).length + (e.keptExtra (UInt64.ofNat off)).length ≤ 65535
 
 instance (e : Entry) (off pre : Nat) : Decidable (AppendFits e off pre) := by
   unfold AppendFits; infer_instance
@@ -217,16 +219,31 @@ theorem appendFits_of_small (e : Entry) (off pre : Nat) (h : e.centralExtra.leng
   unfold AppendFits
   have h1 := centralZip64Bytes_length_le (viewEntry e off pre 0)
   have h2 := centralZ64_length_le e (UInt64.ofNat off)
-  simp only [Entry.centralExtraAll, List.length_append]
+  have h3 := keptExtra_length_le e (UInt64.ofNat off)
+  simp only [Entry.centralExtraAll, List.length_append] at h3
   omega
+
+/-- **Since D20 a `Readable` entry that `Fits` always re-serialises**: what is kept is `e.centralExtra`,
+and `Fits` leaves room for one ZIP64 record. -/
+theorem appendFits_of_fits_readable (e : Entry) (off pre : Nat) (hf : e.Fits) (hr : e.Readable) :
+    AppendFits e off pre := by
+  unfold AppendFits
+  rw [keptExtra_of_extraOk e _ hr.1]
+  have h1 := centralZip64Bytes_length_le (viewEntry e off pre 0)
+  have := hf.2.2.2.1
+  omega
+
+/-- `appendRecord` only touches the extra field -/
+theorem centralZip64Bytes_appendRecord (f : FileData) :
+    centralZip64Bytes (appendRecord f) = centralZip64Bytes f := rfl
 
 /-- **`view_closed`** -/
 theorem view_closed (e : Entry) (off pre chs : Nat) (hfit : AppendFits e off pre) :
-    Closed (appendNorm e off pre) (off + pre) (viewEntry e off pre chs) := by
+    Closed (appendNorm e off pre) (off + pre) (appendRecord (viewEntry e off pre chs)) := by
   have hfo := appendNorm_flagsOut e off pre chs
   rw [appendNorm_eq_specEntry e off pre chs] at hfo ⊢
-  exact closed_specEntry_gen (viewEntry e off pre chs) e.date e.gapBefore e.localExtra e.data _ e.localZip64
-    e.desc _ (off + pre) (msdos_roundtrip e.date e.time).1 hfit rfl rfl hfo
+  exact closed_specEntry_gen (appendRecord (viewEntry e off pre chs)) e.date e.gapBefore e.localExtra e.data _
+    e.localZip64 e.desc _ (off + pre) (msdos_roundtrip e.date e.time).1 hfit rfl rfl hfo
 
 
 /-! ### When the local record survives: `AppendClean` -/
@@ -340,33 +357,31 @@ theorem madeBy_stable (sys : System) (v : UInt8) :
   · exact ⟨h2, h5⟩
   · exact ⟨h3, h6⟩
 
-/-- **The writer's entries are fixed points of `appendNorm` up to the central extra field**: re-opening
-an archive the crate wrote (no prefix) and finishing again re-emits the same central record, except that
-the extra field now starts with a (second) copy of the ZIP64 record when one was needed. -/
+/-- **The writer's entries are EXACT fixed points of `appendNorm`** (since D20): re-opening an archive the
+crate wrote (no prefix) and finishing again re-emits the same central record — the inherited ZIP64 record
+is dropped and regenerated, so the extra field no longer grows.  (`hx`: the record's own extra data carry
+no ZIP64 / AES record; the writer's `end_extra_data` refuses those.) -/
 theorem appendNorm_specEntry (f : FileData) (dp : UInt16) (gap lx data : Bytes) (lv : UInt16) (off : Nat)
     (hs : (Spec.utf8Strict f.fileName).isSome = true)
     (hm : Method.fromU16 f.method.toU16 = f.method)
     (hcs : f.compressedSize = UInt64.ofNat data.length)
-    (hoff : f.headerStart = UInt64.ofNat off) :
-    appendNorm (specEntry f dp gap lx data lv) off 0 =
-      { specEntry f dp gap lx data lv with
-        centralExtra := centralZip64Bytes f ++ f.extraField
-        localVersion := some lv } := by
-  have hz := centralZip64_eq f dp gap lx data lv f.largeFile .none (flagOf f) off hcs hoff
+    (hoff : f.headerStart = UInt64.ofNat off) (hx : ExtraOk f.extraField) :
+    appendNorm (specEntry f dp gap lx data lv) off 0 = specEntry f dp gap lx data lv := by
+  have hk : (specEntry f dp gap lx data lv).keptExtra (UInt64.ofNat off) = f.extraField :=
+    keptExtra_of_extraOk _ _ hx
   have hmb := madeBy_stable f.system f.versionMadeBy
   have hn := writer_name_stable f.fileName f.encrypted hs
   have hb := flagOf_bits f.fileName f.encrypted
   unfold appendNorm
-  simp only [viewEntry, specEntry, Entry.flagsOut, Entry.hasDesc, Entry.csize, Entry.centralExtraAll,
-    Nat.add_zero] at hz ⊢
+  rw [hk]
+  simp only [viewEntry, specEntry, Entry.flagsOut, Entry.hasDesc, Entry.csize, Nat.add_zero]
   have hd : (Desc.none != Desc.none) = false := by decide
-  simp only [hd, Bool.false_eq_true, if_false] at hz ⊢
+  simp only [hd, Bool.false_eq_true, if_false]
   have hn' : Text.decodeToUtf8 (!isAscii f.fileName) f.fileName = f.fileName := by
     have := hn; rw [hb.1] at this; exact this
   simp only [FileData.versionNeeded, FileData.zip64Extension, centralFlagOf, flagOf, hm, ← hcs, ← hoff,
     hmb.1, hmb.2, hb.1, hb.2.1, hb.2.2, hn', Option.getD_some, Bool.false_eq_true, if_false,
-    UInt16.or_zero] at hz ⊢
-  rw [hz]
+    UInt16.or_zero]
 
 /-! ### Lists: the whole re-hydrated directory -/
 
@@ -398,7 +413,7 @@ theorem closed_gap_irrel (e : Entry) (g : Bytes) (off : Nat) (f : FileData) :
 
 theorem closedAll_list (pre : Nat) : ∀ (es : List Entry) (loc chs : Nat),
     (∀ e ∈ es, AppendClean e ∧ e.centralExtra.length + 56 ≤ 0xFFFF) →
-    ClosedAll (appendNormList pre es loc) (loc + pre) (viewList pre es loc chs) := by
+    ClosedAll (appendNormList pre es loc) (loc + pre) ((viewList pre es loc chs).map appendRecord) := by
   intro es
   induction es with
   | nil => intro _ _ _; exact True.intro
@@ -439,7 +454,7 @@ theorem closedAll_extendGap (g : Bytes) : ∀ (es : List Entry) (fs : List FileD
 /-- **`viewOf_closedAll`** -/
 theorem viewOf_closedAll (l : Layout)
     (hall : ∀ e ∈ l.entries, AppendClean e ∧ e.centralExtra.length + 56 ≤ 0xFFFF) :
-    ClosedAll (appendNormAll l) 0 (viewOf l) := by
+    ClosedAll (appendNormAll l) 0 ((viewOf l).map appendRecord) := by
   apply closedAll_extendGap
   have := closedAll_list l.pre.length l.entries 0 l.cdStart hall
   rwa [Nat.zero_add] at this
@@ -476,26 +491,28 @@ theorem appendNormAll_bytes (l : Layout) (hall : ∀ e ∈ l.entries, AppendClea
 
 /-! ### Is the normalised entry again an entry `reader_on_wf` (C03) covers? -/
 
-/-- Without a ZIP64 record in the old central header the normalised entry is `Readable` again … -/
-theorem appendNorm_readable (e : Entry) (off pre : Nat) (hr : e.Readable)
-    (hz : e.zU = false ∧ e.zC = false ∧ e.zO (UInt64.ofNat off) = false) :
+/-- **Since D20 the normalised entry of a `Readable` entry is `Readable` again**, ZIP64 or not … -/
+theorem appendNorm_readable (e : Entry) (off pre : Nat) (hr : e.Readable) :
     (appendNorm e off pre).Readable := by
   refine ⟨?_, hr.2⟩
-  show ExtraOk (e.centralExtraAll (UInt64.ofNat off))
-  have : e.centralExtraAll (UInt64.ofNat off) = e.centralExtra := by
-    simp [Entry.centralExtraAll, Entry.centralZ64, hz.1, hz.2.1, hz.2.2]
-  rw [this]; exact hr.1
+  show ExtraOk (e.keptExtra (UInt64.ofNat off))
+  rw [keptExtra_of_extraOk e _ hr.1]; exact hr.1
 
-/-- … and it still `Fits` when it is `AppendClean` and its extra data leave room for two ZIP64 records. -/
+/-- … and so is that of an entry whose foreign extra data contain further ZIP64 records (`ExtraOkZ`-style):
+they are dropped. -/
+theorem appendNorm_readable_of_okZ (e : Entry) (off pre : Nat) (hm : e.method ≠ 99) (a : Bool)
+    (hx : extraOkZAux a e.centralExtra.length e.centralExtra = true) :
+    (appendNorm e off pre).Readable :=
+  ⟨keptExtra_extraOk e _ a hx, hm⟩
+
+/-- … and it still `Fits` when it is `AppendClean` (the name keeps its length). -/
 theorem appendNorm_fits (e : Entry) (off pre : Nat) (hf : e.Fits) (hc : AppendClean e)
-    (hx : e.centralExtra.length + 56 ≤ 0xFFFF) : (appendNorm e off pre).Fits := by
-  obtain ⟨h1, _, h3, _, h5, h6⟩ := hf
+    (hr : e.Readable) : (appendNorm e off pre).Fits := by
+  obtain ⟨h1, _, h3, h4, h5, h6⟩ := hf
   have hname : (appendNorm e off pre).name = e.name := hc.1
-  have h2 := centralZ64_length_le e (UInt64.ofNat off)
   refine ⟨by rw [hname]; exact h1, by show ([] : Bytes).length ≤ 0xFFFF; simp, h3, ?_, h5, h6⟩
-  show (e.centralExtraAll (UInt64.ofNat off)).length + 28 ≤ 0xFFFF
-  simp only [Entry.centralExtraAll, List.length_append]
-  omega
+  show (e.keptExtra (UInt64.ofNat off)).length + 28 ≤ 0xFFFF
+  rw [keptExtra_of_extraOk e _ hr.1]; exact h4
 
 /-- one foreign record is a well-formed extra field -/
 theorem extraOk_single (id : UInt16) (payload : Bytes) (h1 : id ≠ 1) (h2 : id ≠ 0x9901)
@@ -529,7 +546,7 @@ theorem append_open_is_base_state (l : Layout) (hF : l.Fits) (hR : l.Readable) (
       d.buf = build l ∧ d.pos = l.cdStart ∧
       d.buf.take d.pos = localsBytes (appendNormAll l) ++ appendGap l ∧
       ClosedAll (appendNormAll l) 0 s.files ∧
-      s.files = viewOf l ∧ s.comment = l.comment ∧
+      s.files = (viewOf l).map appendRecord ∧ s.comment = l.comment ∧
       s.inner = .storer none ∧ s.writingToFile = false ∧ s.writingToExtraField = false ∧
       s.centralOnly = false ∧ (s.files = [] ∨ s.writingRaw = true) := by
   obtain ⟨d, h1, h2, h3⟩ := newAppend_on_layout l hF hR hS ht
